@@ -248,3 +248,105 @@ Proof.
   - apply nth_error_None in E0. assert (nth_error (sw_heap (srun stk heap ops)) i <> None) by congruence.
     apply nth_error_Some in H. lia.
 Qed.
+
+(** * trail accumulation over re-deliveries *)
+Lemma concat_repeat_comm {A} (t : list A) n : t ++ concat (repeat t n) = concat (repeat t n) ++ t.
+Proof. induction n as [|n IH]; simpl; [rewrite app_nil_r; reflexivity|]. rewrite <- app_assoc, <- IH. reflexivity. Qed.
+
+Lemma concat_repeat_snoc {A} (t : list A) n : concat (repeat t (S n)) = concat (repeat t n) ++ t.
+Proof. simpl. apply concat_repeat_comm. Qed.
+
+Definition proj_out (x : nat * smsg) : nat * N * list N := (fst x, sm_rest (snd x), sm_trail (snd x)).
+
+(** every object of the current heap is the original one with the transforms applied once per
+    delivery so far *)
+Definition tracks (tags : list N) (heap0 : list smsg) (seen : list nat) (w : sworld) : Prop :=
+  length (sw_heap w) = length heap0 /\
+  forall i m, nth_error (sw_heap w) i = Some m ->
+    exists m0, nth_error heap0 i = Some m0 /\ sm_rest m = sm_rest m0
+               /\ sm_trail m = sm_trail m0 ++ concat (repeat tags (count_nat i seen)).
+
+Lemma count_nat_cons_same i seen : count_nat i (i :: seen) = S (count_nat i seen).
+Proof. unfold count_nat. simpl. rewrite Nat.eqb_refl. reflexivity. Qed.
+Lemma count_nat_cons_other i j seen : i <> j -> count_nat i (j :: seen) = count_nat i seen.
+Proof. intros H. unfold count_nat. simpl. apply Nat.eqb_neq in H. rewrite H. reflexivity. Qed.
+
+Lemma srun_trails stk heap0 ops : forall w seen,
+  tracks (rev (stransform_tags stk)) heap0 seen w ->
+  exists news, sw_out (fold_left (sstep stk) ops w) = sw_out w ++ news
+               /\ trails_ok (rev (stransform_tags stk)) heap0 (map proj_out news) seen = true.
+Proof.
+  set (tags := rev (stransform_tags stk)).
+  induction ops as [|o ops IH]; intros w seen T.
+  - exists []. simpl. rewrite app_nil_r. auto.
+  - simpl fold_left. destruct T as [Tl Th]. destruct o as [j|j ack|].
+    + simpl sstep. destruct (nth_error (sw_heap w) j) as [m|] eqn:E; [|apply IH; split; assumption].
+      destruct (sw_closes w) eqn:Ec; [|apply IH; split; assumption].
+      destruct (Th j m E) as (m0 & E0 & R0 & T0).
+      destruct (spass_untouched stk m) as (U1 & _ & _ & _ & U5). fold tags in U5.
+      pose proof (flush_facts j (spass stk m)) as (_ & _ & _ & _ & F5 & F6).
+      destruct (flush j (spass stk m)) as [m2 ob] eqn:Hf. simpl in F5, F6.
+      assert (T' : tracks tags heap0 (j :: seen)
+                     (SW (set_nth (sw_heap w) j m2) (sw_out w ++ [(j, spass stk m)]) (sw_obs w ++ ob) (sw_closes w) (sw_rets w))).
+      { split; simpl; [rewrite set_nth_length; exact Tl|].
+        intros i x Hx. apply nth_error_set_nth_cases in Hx as [[-> ->]|[Hne Hx]].
+        - exists m0. repeat split; [exact E0 | congruence |].
+          rewrite F6, U5, T0, count_nat_cons_same, concat_repeat_snoc, app_assoc. reflexivity.
+        - destruct (Th i x Hx) as (x0 & X0 & XR & XT). exists x0. repeat split; auto.
+          rewrite count_nat_cons_other by exact Hne. exact XT. }
+      rewrite Ec in T'.
+      destruct (IH _ _ T') as (news & Hn & Hok). simpl in Hn.
+      exists ((j, spass stk m) :: news). split.
+      * rewrite Hn, <- app_assoc. reflexivity.
+      * cbn [trails_ok map proj_out fst snd]. rewrite E0. rewrite U1, R0, N.eqb_refl. rewrite U5, T0, concat_repeat_snoc, app_assoc.
+        rewrite (list_eqb_refl N.eqb N.eqb_refl). exact Hok.
+    + simpl sstep. destruct (nth_error (sw_heap w) j) as [m|] eqn:E; [|apply IH; split; assumption].
+      destruct (step (sm_st m) (if ack then OpAck else OpNack)) as [s' r].
+      pose proof (flush_facts j (set_st m s')) as (_ & _ & _ & _ & F5 & F6).
+      destruct (flush j (set_st m s')) as [m2 ob]. simpl in F5, F6.
+      assert (T' : tracks tags heap0 seen
+                     (SW (set_nth (sw_heap w) j m2) (sw_out w) (sw_obs w ++ ob) (sw_closes w) (sw_rets w ++ [r]))).
+      { split; simpl; [rewrite set_nth_length; exact Tl|].
+        intros i x Hx. apply nth_error_set_nth_cases in Hx as [[-> ->]|[Hne Hx]].
+        - destruct (Th j m E) as (m0 & E0 & R0 & T0). exists m0. repeat split; congruence.
+        - apply Th. exact Hx. }
+      destruct (IH _ _ T') as (news & Hn & Hok). exists news. split; [exact Hn | exact Hok].
+    + simpl sstep.
+      assert (T' : tracks tags heap0 seen (SW (sw_heap w) (sw_out w) (sw_obs w) (S (sw_closes w)) (sw_rets w)))
+        by (split; assumption).
+      destruct (IH _ _ T') as (news & Hn & Hok). exists news. split; [exact Hn | exact Hok].
+Qed.
+
+(** * the acceptor accepts every run of the model *)
+Definition sseen_of_run (stk : list sdec) (heap : list smsg) (ops : list sop)
+           (crets : list (option N)) (tab : list (slabel * nat)) : sseen :=
+  let w := srun stk heap ops in
+  SSeen (map proj_out (sw_out w)) (map (fun m => st (sm_st m)) (sw_heap w)) (sw_closes w)
+        (map (fun r => (r, snd (pclose stk r))) crets) tab.
+
+Lemma settle_eqb_refl s : settle_eqb s s = true.
+Proof. destruct s; reflexivity. Qed.
+
+Lemma sub_monitor_model stk heap ops crets tab :
+  forallb sfresh heap = true ->
+  length crets = count_closes ops ->
+  counts_agree slabel_eqb tab (map sobs_label (sw_obs (srun stk heap ops))) = true ->
+  sub_monitor stk heap ops (sseen_of_run stk heap ops crets tab) = true.
+Proof.
+  intros Hf Hc Ht. unfold sub_monitor, sseen_of_run. cbn [s_out s_final s_closes s_close_rets s_tab].
+  assert (G : counts_agree slabel_eqb tab (spec_sub_obs stk heap ops) = true).
+  { eapply (counts_agree_transfer slabel_eqb slabel_eqb_spec); [|exact Ht].
+    intros l. apply srun_counts. exact Hf. }
+  rewrite G, andb_true_r.
+  repeat (apply andb_true_iff; split).
+  - rewrite map_map. simpl.
+    rewrite (map_ext (fun x => fst (fst (proj_out x))) fst) by reflexivity.
+    rewrite srun_out. apply (list_eqb_refl Nat.eqb Nat.eqb_refl).
+  - assert (T : tracks (rev (stransform_tags stk)) heap [] (SW heap [] [] 0 [])).
+    { split; [reflexivity|]. simpl. intros i m E. exists m. unfold count_nat. simpl. rewrite app_nil_r. auto. }
+    destruct (srun_trails stk heap ops _ _ T) as (news & Hn & Hok). unfold srun. rewrite Hn. exact Hok.
+  - rewrite srun_finals. apply (list_eqb_refl settle_eqb settle_eqb_refl).
+  - rewrite srun_closes_total. apply Nat.eqb_refl.
+  - apply forallb_forall. intros x Hx. apply in_map_iff in Hx as (r & <- & _). simpl. apply optN_eqb_refl.
+  - rewrite map_length, Hc. apply Nat.eqb_refl.
+Qed.
